@@ -397,9 +397,16 @@ func unboundedGasLoop(entry string, input []byte, dump string, wit map[string]an
 	if err := json.Unmarshal(req.Args, &args); err != nil {
 		return ""
 	}
+	// the gas allowance the keeper derives from the request (x/evm/keeper/grpc_query.go): EthCall runs with the request's
+	// gas, absent = unbounded, capped by a non-zero gas cap; EstimateGas starts its search at the request's gas when that
+	// is at least 21000, otherwise at the block gas limit - which the hostile worlds leave unlimited (MaxGas -1), so at
+	// the gas cap - and caps it by a non-zero gas cap
 	allowance := uint64(math.MaxUint64)
 	if args.Gas != nil {
 		allowance = uint64(*args.Gas)
+	}
+	if class == "query-estimategas-unbounded-gas-loop" && (args.Gas == nil || uint64(*args.Gas) < 21000) {
+		allowance = req.GasCap
 	}
 	if req.GasCap != 0 && allowance > req.GasCap {
 		allowance = req.GasCap
